@@ -148,7 +148,7 @@ TSync ==
 
 (* calls that change nothing the model tracks (begin_indep switches the mode) *)
 TOther ==
-    /\ Tr[l].e \in {"begin_indep", "enddef", "open"} /\ ~IsSetup(Tr[l])
+    /\ Tr[l].e \in {"begin_indep", "enddef", "open", "abort"} /\ ~IsSetup(Tr[l])
     /\ LET ev == Tr[l] IN
          /\ Chk("allranks", AllRanks(ev))
          /\ Chk("rc", \A i \in 1..Len(ev.rk) : ev.rk[i].rc = "NC_NOERR")
